@@ -27,10 +27,10 @@ def stepOp (q : PQ) (tok : String) : Except String (PQ × String) :=
   | ["rd", n] =>   -- Read(p) with len(p) = n: what the caller's buffer holds afterwards
     match n.toNat? with
     | some n =>
-      match q.bytes n with
-      | (.ok bs, q') => .ok (q', s!"ok:{n}:{toHex bs}")
-      | (.short bs, q') => .ok (q', s!"short:{n}:{toHex bs}")
-      | (.panic, _) => .error "panic"
+      match q.read n with
+      | (.ok bs, k, q') => .ok (q', s!"ok:{k}:{toHex bs}")
+      | (.short bs, k, q') => .ok (q', s!"short:{k}:{toHex bs}")
+      | (.panic, _, _) => .error "panic"
     | none => .error "bad-op"
   | ["u", w] =>    -- typed little-endian read of width w
     match w.toNat? with
